@@ -126,6 +126,52 @@ protected:
     pos_type seekpos(pos_type pos, std::ios_base::openmode which) override { return seekoff(off_type(pos), std::ios_base::beg, which); }
 };
 
+// the stream a subject is read from: a view over the bytes or, in file mode (used by the round trip), a std::ifstream over a
+// scratch file holding them (a file stream only buffers a few KiB: in_avail(), readsome() and friends behave differently there)
+inline bool& file_mode()
+{
+    static thread_local bool on = false;
+    return on;
+}
+
+class input_t
+{
+public:
+    input_t(const char* p, size_t n)
+        : m_buf(p, n)
+        , m_view(&m_buf)
+    {
+        if (file_mode())
+        {
+            const char* dir = std::getenv("TMPDIR");
+            m_path          = cat(dir != nullptr ? dir : ".", "/c15_stream.", static_cast<long>(::getpid()), ".bin");
+            {
+                std::ofstream out(m_path, std::ios::binary | std::ios::trunc);
+                out.write(p, static_cast<std::streamsize>(n));
+            }
+            m_file.open(m_path, std::ios::binary);
+        }
+    }
+    input_t(const input_t&)            = delete;
+    input_t& operator=(const input_t&) = delete;
+    ~input_t()
+    {
+        if (!m_path.empty())
+        {
+            m_file.close();
+            std::remove(m_path.c_str());
+        }
+    }
+
+    std::istream& stream() { return m_path.empty() ? static_cast<std::istream&>(m_view) : static_cast<std::istream&>(m_file); }
+
+private:
+    view_buf_t    m_buf;
+    std::istream  m_view;
+    std::ifstream m_file;
+    std::string   m_path;
+};
+
 // ---------------------------------------------------------------------------------------
 // the tensor wire format as documented (include/nano/tensor/stream.h, include/nano/core/hash.h):
 //   u32 version(=0) | u32 rank | i32 dims[rank] | u32 sizeof(scalar) | u64 hash(content) | content
@@ -491,9 +537,9 @@ subject_t member_subject(std::string family, std::string label, const tobject& o
         return guarded(
             [&](outcome_t& o)
             {
-                auto         object = fresh();
-                view_buf_t   buf(p, n);
-                std::istream in(&buf);
+                auto          object = fresh();
+                input_t       input(p, n);
+                std::istream& in = input.stream();
                 object->read(in);
                 if (!in)
                 {
@@ -524,14 +570,29 @@ subject_t factory_subject(std::string family, std::string label, const std::uniq
     s.state         = observe(*original);
     s.nested        = 1;
     s.free_function = true;
-    s.read          = [observe](const char* p, size_t n, bool want_state)
+    std::string other;
+    if (s.bytes.size() % 2 == 1)
+    {
+        for (const auto& id : tbase::all().ids())
+        {
+            if (id != original->type_id())
+            {
+                other = id;
+                break;
+            }
+        }
+        s.label += cat(" (read into a pointer holding a ", other.empty() ? "-" : other, ")");
+    }
+    s.read          = [observe, other](const char* p, size_t n, bool want_state)
     {
         return guarded(
             [&](outcome_t& o)
             {
-                std::unique_ptr<tbase> object;
-                view_buf_t             buf(p, n);
-                std::istream           in(&buf);
+                // (half of the subjects) the destination already holds ANOTHER object of the same factory: the object read is
+                // the one stored in the stream, whatever the pointer held before
+                std::unique_ptr<tbase> object = other.empty() ? std::unique_ptr<tbase>{} : tbase::all().get(other);
+                input_t                input(p, n);
+                std::istream&          in = input.stream();
                 ::nano::read(in, object);
                 if (!in)
                 {
@@ -589,8 +650,8 @@ subject_t tensor_subject(const nano::tensor_mem_t<T, R>& original, int prefill, 
                         t.resize(other);
                         std::memset(t.data(), 0x5a, static_cast<size_t>(t.size()) * sizeof(T));
                     }
-                    view_buf_t   buf(p, n);
-                    std::istream in(&buf);
+                    input_t       input(p, n);
+                    std::istream& in = input.stream();
                     if (!::nano::read(in, t) || !in)
                     {
                         o.failed = true;
@@ -1735,6 +1796,24 @@ inline finding_t round_trip(const subject_t& s)
         }
         return {1, cat("C15/", s.family, "/roundtrip/bytes-differ"),
                 cat(s.label, ": re-serialised stream differs at offset ", at, " (sizes ", s.bytes.size(), " / ", o.rewritten.size(), ")")};
+    }
+    // the same valid stream stored in a file and read through a std::ifstream (every stream above 4 KiB, a quarter of the others)
+    if (s.bytes.size() >= 4096 || s.bytes.size() % 4 == 0)
+    {
+        file_mode()  = true;
+        const auto f = s.read(s.bytes.data(), s.bytes.size(), true);
+        file_mode()  = false;
+        if (f.failed)
+        {
+            return {1, cat("C15/", s.family, "/roundtrip/file-stream/read-failed"),
+                    cat(s.label, ": reading back the complete ", s.bytes.size(), "-byte stream from a file failed (", f.how == 1 ? "stream state" : f.what, ")")};
+        }
+        if (f.consumed != static_cast<long>(s.bytes.size()) || f.state != s.state || f.rewritten != s.bytes)
+        {
+            return {1, cat("C15/", s.family, "/roundtrip/file-stream/differs"),
+                    cat(s.label, ": consumed ", f.consumed, " of ", s.bytes.size(), " bytes; observation ", f.state == s.state ? "equal" : "differs", "; bytes ",
+                        f.rewritten == s.bytes ? "equal" : "differ")};
+        }
     }
     return {};
 }
